@@ -1,0 +1,12 @@
+//go:build verif
+
+package ntske
+
+// Verification hook (build tag "verif"): a read-only view of the fetcher's
+// cached key-exchange data.
+
+func (f *Fetcher) VerifData() Data {
+	d := f.data
+	d.Cookie = append([][]byte{}, f.data.Cookie...)
+	return d
+}
